@@ -264,9 +264,9 @@ func specShape(args json.RawMessage) string {
 }
 
 var c07Envs = []map[string]string{
-	{"A": "v"},            // set, non-empty
-	{"A": ""},             // set, empty
-	{},                    // unset
+	{"A": "v"},           // set, non-empty
+	{"A": ""},            // set, empty
+	{},                   // unset
 	{"A": "$A${A:-x}$$"}, // set to text that looks like a template: must not be expanded again
 }
 
@@ -439,4 +439,8 @@ func runC07(ctx *core.Ctx) {
 			ctx.Add("substLoad", specArgs{Ast: ast, Env: env})
 		}
 	}
+	// 4. the mapping handed to Substitute by its callers (dotenv, interpolation)
+	runC07Mapping(ctx, rnd)
+	// 5. SubstituteWithOptions under concrete configurations vs the parametric model
+	runC07Opts(ctx, rnd)
 }
